@@ -7,10 +7,13 @@
 #include <string.h>
 #include "ext2_fs.h"
 #include "ext2fs.h"
-#ifndef VF_REPLAY
+/* STUB: (re-open harness only, VF_GETMEM_MIN) allocations are at least 1024 bytes: check_filesystem() reads the 1024-byte superblock copy into a buffer of `blocksize` bytes, which is >= 1024 in reality but 48 at the scaled undo block size */
+#ifndef VF_GETMEM_MIN
+#define VF_GETMEM_MIN 0
+#endif
 static inline errcode_t vf_get_mem(unsigned long size, void *ptr)
 {
-	void *pp = malloc(size);
+	void *pp = malloc(size < VF_GETMEM_MIN ? VF_GETMEM_MIN : size);
 	if (!pp)
 		return EXT2_ET_NO_MEMORY;
 	*(void **) ptr = pp;
@@ -24,4 +27,3 @@ static inline errcode_t vf_free_mem(void *ptr)
 }
 #define ext2fs_get_mem(size, ptr) vf_get_mem((size), (ptr))
 #define ext2fs_free_mem(ptr) vf_free_mem((ptr))
-#endif
